@@ -1,5 +1,5 @@
 """Contracts for key_helpers.py and group_helpers.py (DESIGN.md §6.3, §6.4; C10, and every kernel that calls them)."""
-from pyvc.dsl import (contract, requires, ensures, must_fail, And, Or, Not, Implies, If, Iff, Eq, forall, IsInstance,
+from pyvc.dsl import (contract, requires, assumes, ensures, must_fail, And, Or, Not, Implies, If, Iff, Eq, forall, IsInstance,
                       IsNone, IsInt, IsStr, AsInt, AsStr, current)
 from pyvc.values import T, V, VBool, VInt
 from spec.avm_axioms import ev, gidx, gsize
@@ -95,7 +95,7 @@ def _leaf_field(key_field):
 
 
 requires(c, "leaf_field", lambda key_field: _leaf_field(key_field))
-requires(c, "defs", lambda analysis_key, stack_value, key_field, v: _defs(analysis_key, stack_value, key_field, v))
+assumes(c, "defs", lambda analysis_key, stack_value, key_field, v: _defs(analysis_key, stack_value, key_field, v))
 ensures(c, "exact", lambda analysis_key, stack_value, key_field, result:
         Implies(IsNone(key_field), lambda: Iff(result, is_field_read(analysis_key, stack_value))))
 ensures(c, "sound", lambda analysis_key, stack_value, key_field, result, v:
